@@ -158,7 +158,6 @@ def judgeAnswered (env : Env) (s : State) (σ : KG.Spec.LocalLimiter.SState) (r 
   match KG.Spec.Forward.table sc with
   | .forward => ["gw.not-forwarded"]          -- every stage passes: the request must reach an upstream
   | .notProxied => cls o.notProxied "gw.ip-host-not-handed-over"
-  | .plainError c => cls (decide (o.term.httpCode = c)) "gw.term.row"
   | .terminated a =>
     cls (KG.Spec.Forward.wellFormed o.term) "gw.term.not-a-status" ++
     cls (KG.Spec.Forward.matchesRow a o.term) "gw.term.row" ++
@@ -182,8 +181,6 @@ def obsOf (r : Request) : Outcome → Option Obs
            identity := f.identity, term := emptyTerm, notProxied := false }
   | .terminated a =>
     some { nUp := 0, endpoint := [], up := emptyUp, identity := [], term := KG.Spec.Forward.obsOfAnswer a, notProxied := false }
-  | .plainError c =>
-    some { nUp := 0, endpoint := [], up := emptyUp, identity := [], term := { emptyTerm with httpCode := c }, notProxied := false }
   | .notProxied => some { nUp := 0, endpoint := [], up := emptyUp, identity := [], term := emptyTerm, notProxied := true }
   | _ => none
 
